@@ -83,7 +83,8 @@ func (b *stateBackend) Store(
 	stateUpdate *core.StateUpdate,
 	newClasses map[felt.Felt]core.ClassDefinition,
 ) error {
-	return b.database.Write(func(batch db.Batch) error {
+	var filterUpdated bool
+	return b.resetFilterOnError(&filterUpdated, b.database.Write(func(batch db.Batch) error {
 		if err := verifyBlockSuccession(b.database, block); err != nil {
 			return err
 		}
@@ -108,12 +109,14 @@ func (b *stateBackend) Store(
 			return err
 		}
 
+		filterUpdated = true
 		return b.runningFilter.InsertWithBatch(batch, block.EventsBloom, block.Number)
-	})
+	}))
 }
 
 func (b *stateBackend) RevertHead() error {
-	return b.database.Write(func(batch db.Batch) error {
+	var filterUpdated bool
+	return b.resetFilterOnError(&filterUpdated, b.database.Write(func(batch db.Batch) error {
 		blockNumber, err := core.GetChainHeight(b.database)
 		if err != nil {
 			return err
@@ -142,8 +145,9 @@ func (b *stateBackend) RevertHead() error {
 			return err
 		}
 
+		filterUpdated = true
 		return b.runningFilter.OnReorgWithBatch(batch)
-	})
+	}))
 }
 
 func (b *stateBackend) GetReverseStateDiff() (core.StateDiff, error) {
@@ -211,7 +215,8 @@ func (b *stateBackend) Finalise(
 	newClasses map[felt.Felt]core.ClassDefinition,
 	sign core.BlockSignFunc,
 ) error {
-	return b.database.Write(func(batch db.Batch) error {
+	var filterUpdated bool
+	return b.resetFilterOnError(&filterUpdated, b.database.Write(func(batch db.Batch) error {
 		st, err := state.New(stateUpdate.OldRoot, b.stateDB, batch)
 		if err != nil {
 			return err
@@ -245,8 +250,9 @@ func (b *stateBackend) Finalise(
 			return err
 		}
 
+		filterUpdated = true
 		return b.runningFilter.InsertWithBatch(batch, block.EventsBloom, block.Number)
-	})
+	}))
 }
 
 func (b *stateBackend) VerifyBlockHash(
